@@ -208,8 +208,44 @@ def no_hidden_state(ctx, R, rule_id, modules, classes=None, allow=()):
                         imp = f.module.imports.get(t.value.id)
                         if imp is not None and imp[0] == "module" and imp[1].startswith("labella.") and (not modules or imp[1].split(".", 1)[1] in modules or f.module.name in modules):
                             R.bad(rule_id, "%s|module attribute %s.%s" % (f.qual, t.value.id, t.attr), "%s:%s (%s)" % (f.module.path, n.lineno, f.qual), "`%s` rebinds the module-level name %s.%s at run time: later calls in the same process see the changed value" % (ntext(n)[:80], imp[1], t.attr))
+    # functions that run only while their module is being imported (every call site, transitively, is module-level
+    # code): what they store into module-level objects is part of the module's initial value, not run-time state
+    def _init_only():
+        cg = ctx.cg
+        value_uses = {}
+        for m_ in P.modules.values():
+            vs = set()
+            for nd in ast.walk(m_.tree):
+                if isinstance(nd, ast.Name) and isinstance(nd.ctx, ast.Load):
+                    par = getattr(nd, "_parent", None)
+                    if not (isinstance(par, ast.Call) and par.func is nd):
+                        vs.add(nd.id)
+            value_uses[m_.name] = vs
+        imported = set()
+        for m_ in P.modules.values():
+            for imp in m_.imports.values():
+                if imp[0] == "symbol" and imp[1].startswith("labella."):
+                    imported.add((imp[1].split(".", 1)[1], imp[2]))
+        out = set()
+        changed = True
+        while changed:
+            changed = False
+            for f in P.funcs.values():
+                if f.qual in out or f.is_lambda or f.cls is not None or f.parent is not None:
+                    continue
+                callers = cg.inn.get(f.qual, set())
+                if not callers or f.name in value_uses[f.module.name] or (f.module.name, f.name) in imported:
+                    continue
+                if all(c.startswith("<module>:") or c in out for c in callers):
+                    out.add(f.qual)
+                    changed = True
+        return out
+
+    init_only = ctx.get("state.init_only", _init_only)
     # 1/2: mutation of watched module-level objects from any function of the package
     for f in P.funcs.values():
+        if f.qual in init_only:
+            continue
         if f.is_lambda:
             body_nodes = list(walk_local(f.node))
         else:
